@@ -167,7 +167,15 @@ func (r *gatewayController) buildCanaryHeaderHttpRoutes(rules []gatewayv1beta1.H
 	for i := range rules {
 		rule := rules[i]
 		if _, canaryRef := getServiceBackendRef(rule, r.conf.CanaryService); canaryRef != nil {
-			continue
+			_, stableRef := getServiceBackendRef(rule, r.conf.StableService)
+			if stableRef == nil {
+				// canary rule generated by an earlier match step
+				continue
+			}
+			// user rule that still carries the weights of an earlier weight step
+			filterOutServiceBackendRef(&rule, r.conf.CanaryService)
+			stableRef.Weight = utilpointer.Int32(1)
+			setServiceBackendRef(&rule, *stableRef)
 		}
 		desired = append(desired, rule)
 		if _, stableRef := getServiceBackendRef(rule, r.conf.StableService); stableRef == nil {
